@@ -428,6 +428,20 @@ func replayLegacy(line []byte, a *Acc) {
 		called("MapToXml")
 		gx, e := x2j.MapToXml(m)
 		eq("x2j.MapToXml", string(gx)+cls(e), string(xdoc)+"ok")
+		// the variadic flag is handed on as it is: with none, with one, with more than the documented one
+		for _, flags := range [][]bool{{}, {true, false}, {true, true}, {false, true}, {true, false, false}} {
+			cj, _ := xm.Json(flags...)
+			g1, e1 := x2j.XmlToJson(xdoc, flags...)
+			var w1, w2 bytes.Buffer
+			g2, e2 := x2j.XmlToJsonWriter(xdoc, &w1, flags...)
+			_, g3, e3 := x2j.XmlReaderToJson(bytes.NewReader(xdoc), flags...)
+			_, g4, e4 := x2j.XmlReaderToJsonWriter(bytes.NewReader(xdoc), &w2, flags...)
+			b5, e5 := j2x.MapToJson(m, flags...)
+			c5, _ := mv.Json(flags...)
+			eq(fmt.Sprintf("x2j.XmlToJson / XmlToJsonWriter / XmlReaderToJson / XmlReaderToJsonWriter / j2x.MapToJson with the flags %v", flags),
+				fmt.Sprint(string(g1), cls(e1), "|", string(g2), cls(e2), "|", string(g3), cls(e3), "|", string(g4), cls(e4), "|", string(b5), cls(e5)),
+				fmt.Sprint(string(cj), "ok|", string(cj), "ok|", string(cj), "ok|", string(cj), "ok|", string(c5), "ok"))
+		}
 		for _, safe := range []bool{false, true} {
 			cj, _ := xm.Json(safe)
 			called("XmlToJson")
